@@ -4,6 +4,7 @@
 -/
 import Minicbor.Lemmas.Head
 import Minicbor.Lemmas.NoPanic
+import Minicbor.IntConv
 
 namespace Minicbor.C05
 open Dec
@@ -108,5 +109,88 @@ theorem ranges :
 /-- non-vacuity: -2^63 encoded at width 8 is an `i64` but not an `i32`. -/
 example : Representable .i64 (intVal true 9223372036854775807) ∧
     ¬ Representable .i32 (intVal true 9223372036854775807) := by decide
+
+
+/-! ### `Int` and its conversions -/
+
+/-- `Int` covers exactly `[-2^64, 2^64 - 1]`: every well-formed `Int` denotes a value in the
+    range, and every value in the range is denoted by exactly the `Int` that `TryFrom<i128>` builds. -/
+theorem int_range (c : CInt) (h : c.wf) :
+    -18446744073709551616 ≤ c.denote ∧ c.denote ≤ 18446744073709551615 := by
+  unfold CInt.denote CInt.wf at *; cases c.neg <;> simp <;> omega
+
+theorem int_of_i128_exact (i : Int) :
+    (∀ c, CInt.ofI128 i = some c → c.denote = i ∧ c.wf) ∧
+    (CInt.ofI128 i = none ↔ (i < -18446744073709551616 ∨ 18446744073709551615 < i)) := by
+  unfold CInt.ofI128
+  constructor
+  · intro c hc
+    split at hc
+    · split at hc
+      · cases hc
+      · cases hc; simp [CInt.denote, CInt.wf]; omega
+    · split at hc
+      · cases hc
+      · cases hc; simp [CInt.denote, CInt.wf]; omega
+  · (repeat' split) <;> simp <;> omega
+
+theorem int_of_u128_exact (n : Nat) :
+    (∀ c, CInt.ofU128 n = some c → c.denote = n ∧ c.wf) ∧ (CInt.ofU128 n = none ↔ 18446744073709551615 < n) := by
+  unfold CInt.ofU128 CInt.ofU64
+  constructor
+  · intro c hc; split at hc
+    · cases hc; simp [CInt.denote, CInt.wf]; omega
+    · cases hc
+  · split <;> simp <;> omega
+
+theorem int_of_i64_exact (i : Int) (h : -9223372036854775808 ≤ i ∧ i ≤ 9223372036854775807) :
+    (CInt.ofI64 i).denote = i ∧ (CInt.ofI64 i).wf := by
+  unfold CInt.ofI64; split <;> simp [CInt.denote, CInt.wf] <;> omega
+
+theorem int_of_u64_exact (n : Nat) (h : n ≤ 18446744073709551615) :
+    (CInt.ofU64 n).denote = n ∧ (CInt.ofU64 n).wf := by
+  simp [CInt.ofU64, CInt.denote, CInt.wf]; omega
+
+/-- every elimination is exact or fails: it returns `v` iff `v` is the denoted value and lies
+    in the target type's range. -/
+theorem int_to_unsigned_exact (max : Nat) (c : CInt) (v : Nat) :
+    CInt.toUnsigned max c = some v ↔ (c.denote = v ∧ v ≤ max) := by
+  unfold CInt.toUnsigned CInt.toU64 CInt.denote
+  cases c.neg
+  · by_cases h : c.val ≤ max <;> simp [h] <;> omega
+  · simp; omega
+
+theorem int_to_u64_exact (c : CInt) (v : Nat) : CInt.toU64 c = some v ↔ c.denote = v := by
+  unfold CInt.toU64 CInt.denote; cases c.neg <;> simp <;> omega
+
+theorem int_to_u128_exact (c : CInt) (v : Nat) : CInt.toU128 c = some v ↔ c.denote = v := by
+  unfold CInt.toU128 CInt.denote; cases c.neg <;> simp <;> omega
+
+theorem int_to_i64_exact (c : CInt) (v : Int) :
+    CInt.toI64 c = some v ↔ (c.denote = v ∧ -9223372036854775808 ≤ v ∧ v ≤ 9223372036854775807) := by
+  unfold CInt.toI64 CInt.denote
+  cases c.neg <;> by_cases h : c.val ≤ 9223372036854775807 <;> simp [h] <;> omega
+
+theorem int_to_signed_exact (lo hi : Int) (c : CInt) (v : Int)
+    (hlo : -9223372036854775808 ≤ lo) (hhi : hi ≤ 9223372036854775807) :
+    CInt.toSigned lo hi c = some v ↔ (c.denote = v ∧ lo ≤ v ∧ v ≤ hi) := by
+  unfold CInt.toSigned
+  cases h : CInt.toI64 c with
+  | none =>
+    constructor
+    · intro e; cases e
+    · intro ⟨h1, h2, h3⟩
+      have := (int_to_i64_exact c v).mpr ⟨h1, by omega, by omega⟩
+      rw [h] at this; cases this
+  | some n =>
+    have hn := (int_to_i64_exact c n).mp h
+    simp only []
+    split
+    · simp; constructor
+      · intro e; subst e; exact ⟨hn.1, by omega, by omega⟩
+      · intro ⟨h1, _, _⟩; omega
+    · simp; intro h1; omega
+
+theorem int_to_i128_exact (c : CInt) : CInt.toI128 c = c.denote := rfl
 
 end Minicbor.C05
